@@ -87,6 +87,7 @@ class CallMixin:
                 if "property" in decos:
                     return self.call_function(ci.module, d, [obj], {}, ci.qual)
                 b = BoundV(obj, ci.qual, d, ci.module)
+                b.attr_name = attr  # type: ignore[attr-defined]
                 others = [x for x in decos if x not in ("classmethod",)]
                 if others:
                     b.decorators = others  # type: ignore[attr-defined]
@@ -489,6 +490,11 @@ class CallMixin:
         decos = getattr(b, "decorators", None)
         if decos:
             self.event("decorated_call", func=name, decorators=decos)
+        stub = getattr(self, "stub_methods", None)
+        looked_up = getattr(b, "attr_name", name)
+        if stub is not None and stub(looked_up) and len(self.stack) >= 1:
+            self.event("stub_call", name=looked_up, cls=b.cls, args=list(args), kwargs=dict(kwargs))
+            return Sym("stubcall", f"{b.cls}.{looked_up}", tuple(args))
         if any(isinstance(a, Sym) and a.op == "star" for a in args):
             self.event("star_call", func=name)
             return Sym("call", Sym("attr", obj, name), tuple(args), _kw(kwargs))
